@@ -326,7 +326,34 @@ func runC05(c *Ctx) {
 				"Manager.lock() does not wipe the address objects kept in "+fl[0]+"."+fl[1]+": their clear-text private keys survive Lock in memory")
 		}
 	}
-	for _, tn := range []string{"managedAddress", "scriptAddress"} {
+	// the kinds of address object that cache clear-text material: every concrete type of the package that is a
+	// ManagedAddress and has a lock method of its own or through an embedded base (computed, not listed: a new script
+	// address kind embedding baseScriptAddress inherits the cache and must be wiped too)
+	var wipeKinds []string
+	if pk := p.ByPath[rel("waddrmgr")]; pk != nil {
+		var iface *types.Interface
+		if o := pk.Types.Scope().Lookup("ManagedAddress"); o != nil {
+			iface, _ = o.Type().Underlying().(*types.Interface)
+		}
+		for _, name := range pk.Types.Scope().Names() {
+			tn, ok := pk.Types.Scope().Lookup(name).(*types.TypeName)
+			if !ok || iface == nil {
+				continue
+			}
+			if _, isStruct := tn.Type().Underlying().(*types.Struct); !isStruct {
+				continue
+			}
+			ptr := types.NewPointer(tn.Type())
+			if !types.Implements(ptr, iface) {
+				continue
+			}
+			if types.NewMethodSet(ptr).Lookup(pk.Types, "lock") != nil {
+				wipeKinds = append(wipeKinds, name)
+			}
+		}
+	}
+	c.Floor("C05-R2", "address object kinds with a lock method", len(wipeKinds), 2)
+	for _, tn := range wipeKinds {
 		found := false
 		for _, b := range lock.Blocks {
 			for _, ins := range b.Instrs {
